@@ -123,6 +123,7 @@ class Gen(object):
         self.const_style = 'plain'
         self.arrays = False           # array element assignments / reads (prebuild checks only)
         self.logical_calls = False    # invocations as operands of and / or (differential checks only)
+        self.param_kw = ['param']     # spellings of the parameter access keyword (state actions: param / rcvd_evt)
         self.self_relates = False     # self as a participant of relate statements (prebuild checks only: nothing is executed)
         self.refattrs = False         # reads of referential attributes (prebuild checks only: identifier values are not modelled)
         self.t = tape
@@ -225,7 +226,8 @@ class Gen(object):
         if k == 3:
             ps = [n for n, pt in self.params.items() if pt == ty]
             if ps:
-                return N('ParamAccessNode', variable_name=t.choice(ps), _kw='param')
+                return N('ParamAccessNode', variable_name=t.choice(ps),
+                         _kw=t.choice(self.param_kw) if len(self.param_kw) > 1 else 'param')
             if self.calls is not None:
                 c = self.calls.expr(self, env, ty, depth)
                 if c is not None:
